@@ -107,7 +107,8 @@ def main():
                 viol = [l for l in lines if l.startswith("VIOLATION")]
                 sigs = [l.strip()[:300] for l in lines if l.startswith("  sig=")]
                 results[p] = {"exit": rc, "violation_lines": len(viol), "first_sigs": sigs[:3], "wall_s": round(time.time() - t, 1),
-                              "summary": [l for l in lines if l.startswith(p + " ")][-1:]}
+                              "summary": [l for l in lines if l.startswith(p + " ")][-1:],
+                              "tail": [l[:400] for l in lines if l.strip()][-4:] if rc not in (0, 1) else []}
             meta["checks"] = results
             confirmed = (rc0 == 0 and rc1 not in (0, None) and not meta.get("suite_failures"))
             meta["confirmed_defect"] = confirmed
